@@ -24,22 +24,27 @@ open Dashu.Model
 /-- the `n`-word buffer of a `ReducedLarge` (`ReducedLarge(Box<[Word]>)`, `len == modulus.len()`) -/
 def Ring.rawWords (W : Nat) (r : Ring) (x : Nat) : List Nat := wordsPad W r.n x
 
+/-- the body of `negate_in_place`'s `if`: `overflow = sub_same_len_in_place_swap(&ring.normalized_divisor, &mut raw.0); debug_assert!(!overflow)` -/
+def subFromModulusL (W : Nat) (nd raw : List Nat) : Except PanicKind (List Nat) :=
+  let (out, overflow) := subSameLenSwap W nd raw 0
+  if overflow ≠ 0 then .error (Div.assertErr "negate_in_place: debug_assert!(!overflow)")
+  else .ok out
+
 /-- `negate_in_place(ring, raw)` -/
 def negateInPlaceL (W : Nat) (nd raw : List Nat) : Except PanicKind (List Nat) :=
-  if raw.all (fun w => w == 0) then .ok raw                              -- raw.0.iter().all(|w| *w == 0)
-  else
-    let (out, overflow) := subSameLenSwap W nd raw 0                     -- sub_same_len_in_place_swap(&normalized_divisor, &mut raw.0)
-    if overflow ≠ 0 then .error (Div.assertErr "negate_in_place: debug_assert!(!overflow)")
-    else .ok out
+  if raw.all (fun w => w == 0) then .ok raw                              -- !raw.0.iter().all(|w| *w == 0)
+  else subFromModulusL W nd raw
 
-/-- the tail shared by `add_in_place` and `dbl_in_place`:
-    `if overflow || cmp_same_len(lhs, modulus).is_ge() { overflow2 = sub_same_len_in_place(lhs, modulus); debug_assert_eq!(overflow, overflow2) }` -/
+/-- the body of the `if` of `add_in_place` / `dbl_in_place`:
+    `overflow2 = sub_same_len_in_place(lhs, modulus); debug_assert_eq!(overflow, overflow2)` -/
+def subModulusL (W : Nat) (nd l1 : List Nat) (overflow : Bool) : Except PanicKind (List Nat) :=
+  let (l2, overflow2) := subSameLen W l1 nd 0
+  if overflow != decide (overflow2 ≠ 0) then .error (Div.assertErr "add_in_place: debug_assert_eq!(overflow, overflow2)")
+  else .ok l2
+
+/-- the tail shared by `add_in_place` and `dbl_in_place`: `if overflow || cmp_same_len(lhs, modulus).is_ge() { … }` -/
 def condSubL (W : Nat) (nd l1 : List Nat) (overflow : Bool) : Except PanicKind (List Nat) :=
-  if overflow ∨ Div.cmpSameLen l1 nd ≠ .lt then
-    let (l2, overflow2) := subSameLen W l1 nd 0
-    if overflow != decide (overflow2 ≠ 0) then .error (Div.assertErr "add_in_place: debug_assert_eq!(overflow, overflow2)")
-    else .ok l2
-  else .ok l1
+  if overflow ∨ Div.cmpSameLen l1 nd ≠ .lt then subModulusL W nd l1 overflow else .ok l1
 
 /-- `add_in_place(ring, lhs, rhs)` -/
 def addInPlaceL (W : Nat) (nd lhs rhs : List Nat) : Except PanicKind (List Nat) :=
@@ -51,14 +56,16 @@ def dblInPlaceL (W : Nat) (nd raw : List Nat) : Except PanicKind (List Nat) :=
   let (l1, carry) := Div.shlInPlace W raw 1                              -- shift::shl_in_place(&mut raw.0, 1) > 0
   condSubL W nd l1 (carry > 0)
 
-/-- the tail shared by `sub_in_place` and `sub_in_place_swap`:
-    `if overflow { overflow2 = add_same_len_in_place(lhs, modulus); debug_assert!(overflow2) }` -/
+/-- the body of the `if` of `sub_in_place` / `sub_in_place_swap`:
+    `overflow2 = add_same_len_in_place(lhs, modulus); debug_assert!(overflow2)` -/
+def addModulusL (W : Nat) (nd l1 : List Nat) : Except PanicKind (List Nat) :=
+  let (l2, overflow2) := addSameLen W l1 nd 0
+  if overflow2 = 0 then .error (Div.assertErr "sub_in_place: debug_assert!(overflow2)")
+  else .ok l2
+
+/-- the tail shared by `sub_in_place` and `sub_in_place_swap`: `if overflow { … }` (`overflow` = the borrow, 0 / 1) -/
 def condAddL (W : Nat) (nd l1 : List Nat) (overflow : Nat) : Except PanicKind (List Nat) :=
-  if overflow ≠ 0 then
-    let (l2, overflow2) := addSameLen W l1 nd 0
-    if overflow2 = 0 then .error (Div.assertErr "sub_in_place: debug_assert!(overflow2)")
-    else .ok l2
-  else .ok l1
+  if overflow ≠ 0 then addModulusL W nd l1 else .ok l1
 
 /-- `sub_in_place(ring, lhs, rhs)`: `lhs -= rhs` -/
 def subInPlaceL (W : Nat) (nd lhs rhs : List Nat) : Except PanicKind (List Nat) :=
@@ -114,13 +121,41 @@ def Elem.subKL (W : Nat) (a b : Elem) : Except PanicKind Elem :=
 def Elem.subSwapKL (W : Nat) (a b : Elem) : Except PanicKind Elem :=
   if sameRing a b then .ok ⟨a.ring, subSwapRawKL W a.ring a.raw b.raw⟩ else .error .differentRings
 
+/-- both subtraction bodies of add.rs at once: `SubAssign<&Reduced>` (`sub_in_place`, behind `a - b`, `a - &b`, `&a - &b`,
+    `a -= b`) and `Sub<Reduced> for &Reduced` (`sub_in_place_swap`); the harness prints one value only when all call
+    forms agree, so the driver does the same -/
+def Elem.subBothKL (W : Nat) (a b : Elem) : Except PanicKind Elem :=
+  match a.subKL W b, a.subSwapKL W b with
+  | .ok x, .ok y => if x.raw = y.raw then .ok x else .error (Div.assertErr "sub_in_place and sub_in_place_swap differ")
+  | .error k, _ => .error k
+  | _, .error k => .error k
+
 def Elem.negKL (W : Nat) (a : Elem) : Elem := ⟨a.ring, negRawKL W a.ring a.raw⟩
 
 def Elem.dblKL (W : Nat) (a : Elem) : Elem := ⟨a.ring, dblRawKL W a.ring a.raw⟩
+
+/-- `Reduced::dbl` (`dbl_in_place`) together with `&x + &x` (`add_in_place` on equal operands), which the harness also
+    evaluates for `m.dbl`; a difference or a failed assertion surfaces as the invalid raw value `M` -/
+def Elem.dblBothKL (W : Nat) (a : Elem) : Elem :=
+  match a.addKL W a with
+  | .ok s => if s.raw = (a.dblKL W).raw then a.dblKL W else ⟨a.ring, a.ring.M⟩
+  | .error _ => ⟨a.ring, a.ring.M⟩
 
 /-- `IntoRing for IBig` with the negation on buffers -/
 def reduceIntKA (W : Nat) (r : Ring) (x : Int) : Elem :=
   let e := rawOfNatKL W r x.natAbs
   if x < 0 then ⟨r, negRawKL W r e⟩ else ⟨r, e⟩
+
+/-- annotation (not compared; histogram in the evidence file): the arm of the buffer-level `add_in_place` / `dbl_in_place`
+    (`o = "add"`, `"dbl"` with `b = a`), `sub_in_place` (`"sub"`), `negate_in_place` (`"neg"`) a case takes -/
+def addArmTag (W : Nat) (r : Ring) (o : String) (a b : Nat) : String :=
+  if r.kind ≠ .large then ""
+  else if o = "add" ∨ o = "dbl" then
+    if a + b ≥ 2 ^ (W * r.n) then ".carry"             -- overflow out of the top word (only with shift = 0)
+    else if a + b = r.M then ".eqM" else if a + b > r.M then ".ge" else ".lt"
+  else if o = "sub" then
+    if a = b then ".eq" else if a > b then ".noborrow" else ".borrow"
+  else
+    if a = 0 then ".zero" else if a % 2 ^ W = 0 then ".lowzero" else ".nonzero"
 
 end Dashu.Model.NT
